@@ -18,11 +18,12 @@ FLOORS = {'R10.1': 4, 'R10.2': 2}
 def r10_1(ctx):
     out = []
     T = tags_of(ctx)
+    T.need('trigger')
     m = ctx.cachedir_methods()
     for role in ('set', 'put'):
         q = ctx.explore(m[role])
         consult = q.edges(lambda ev: ev['k'] == 'pure_local' and ev['path'] in T.trigger_consult_paths and
-                          any(VAL[s][0] == 'sym' and VAL[s][1] == 'app' and VAL[s][2] in T.by_role['trigger'] for a in ev['args'] for s in values.subs(a)))
+                          any(VAL[s][0] == 'sym' and VAL[s][1] == 'app' and VAL[s][2] in T.need('trigger') for a in ev['args'] for s in values.subs(a)))
         pubs = q.prim_edges({'publish_replace', 'publish_excl'})
         first = pubs + [e for e in q.prim_edges({'meta_times', 'meta_perm'}) if path_class(ctx, q, arg_role(q.E[e][2], 'path')) == 'Value']
         bad = q.must_precede(consult, first)
